@@ -9,6 +9,8 @@ mod collection;
 #[cfg(feature = "internals")]
 mod csvdec;
 #[cfg(feature = "internals")]
+mod layout;
+#[cfg(feature = "internals")]
 mod rledec;
 mod rng;
 #[cfg(feature = "internals")]
@@ -27,6 +29,8 @@ fn main() {
     let rest = &args[2..];
     let rc = match args[1].as_str() {
         "sql" => sqlrun::main(rest),
+        #[cfg(feature = "internals")]
+        "layout" => layout::main(rest),
         "sched" => sched::main(rest),
         "cancel" => sched::cancel_main(rest),
         #[cfg(feature = "internals")]
